@@ -20,6 +20,7 @@ func Run(cfg hx.Config) error {
 	r.Notes["ecosystems_end_to_end"] = "dpkg, alpine(apk), python, java, ruby, nodejs, whiteout; rpm/rhel/rhcc (binary databases, network) and gobin (Go executables) are exercised in the pure layer only"
 	r.Notes["store"] = "private in-memory indexer.Store (go/internal/c01/store.go) with the unique keys of migrations/indexer/01-init.sql; the SQL engine is modelled, not verified"
 	r.Notes["strictness"] = "a history inside the hypothesis Tame (evaluated by the Go transcription of tameB, itself compared with the Lean evaluation on every e2e line) may show no difference at all; outside it a difference is classified only when it has exactly the shape of a recorded finding"
+	defer removeMappingFile()
 	runCorpus(r, cfg.Corpus)
 	runPure(r, cfg, rnd.Fork())
 	runE2E(r, cfg, rnd.Fork())
